@@ -7,3 +7,4 @@ import ThriftVerif.Props.C02
 #print axioms Props.C02.read_skips_unknown
 #print axioms Props.C02.read_retag_skips
 #print axioms Props.C02.read_required_missing
+#print axioms Props.C02.read_skips_unknown_anywhere
